@@ -74,12 +74,18 @@ fn parse_content(
                         Span::new(base_position + position, base_position + end_position),
                     )
                 })?;
-                let c = std::char::from_u32(code).ok_or_else(|| {
-                    ParseError::InvalidEntity(
-                        entity.to_string(),
-                        Span::new(base_position + position, base_position + end_position),
-                    )
-                })?;
+                // the character has to be an XML Char:
+                // #x9 | #xA | #xD | [#x20-#xD7FF] | [#xE000-#xFFFD] | [#x10000-#x10FFFF]
+                let c = std::char::from_u32(code)
+                    .filter(|c| {
+                        matches!(c, '\u{9}' | '\u{A}' | '\u{D}' | '\u{20}'..='\u{D7FF}' | '\u{E000}'..='\u{FFFD}' | '\u{10000}'..='\u{10FFFF}')
+                    })
+                    .ok_or_else(|| {
+                        ParseError::InvalidEntity(
+                            entity.to_string(),
+                            Span::new(base_position + position, base_position + end_position),
+                        )
+                    })?;
                 result.push(c);
             } else {
                 match entity.as_str() {
